@@ -8,6 +8,8 @@ import (
 	"encoding/json"
 	"errors"
 	"fmt"
+	"os"
+	"strconv"
 	"strings"
 	"time"
 
@@ -25,7 +27,8 @@ import (
 type Params struct {
 	Items   int      `json:"items"`             // length of the underlying sequence
 	FailAt  int      `json:"fail_at,omitempty"` // 1-based position at which the underlying iterator fails (0 = never)
-	Scripts []string `json:"scripts"`           // one per consumer, letters N(ext) H(ead) S(top)
+	Scripts []string `json:"scripts"`           // one per consumer of the first wave (all concurrent), letters N(ext) H(ead) S(top, any number of times) D(rain: Next until it stops yielding) W(ait until every first-wave consumer without a W has returned)
+	Late    []string `json:"late,omitempty"`    // consumers that open the same query only after the whole first wave has returned (the entry may or may not still be admitted: the timers fire at any point)
 	API     string   `json:"api"`               // read | userset | startingwithuser
 	Cancel  int      `json:"cancel,omitempty"`  // 1-based consumer whose request context another thread cancels at an arbitrary point
 }
@@ -34,6 +37,9 @@ func (p Params) String() string {
 	c := ""
 	if p.Cancel > 0 {
 		c = fmt.Sprintf(" cancel=consumer%d", p.Cancel-1)
+	}
+	if len(p.Late) > 0 {
+		c += fmt.Sprintf(" late=%v", p.Late)
 	}
 	return fmt.Sprintf("%s items=%d failAt=%d scripts=%v%s", p.API, p.Items, p.FailAt, p.Scripts, c)
 }
@@ -47,6 +53,11 @@ type stubReader struct {
 	failAt int
 	opened int
 	stops  int
+	// points: the stub's Next/Head are scheduling points of their own (needed where a foreign thread cancels
+	// a request context the stub looks at natively; elsewhere they touch nothing shared and are left out, which
+	// keeps the 100-item fetches of the long sequences at a handful of points)
+	points bool
+	served int // items handed out by Next over all underlying iterators
 }
 
 type stubIter struct {
@@ -81,18 +92,23 @@ func (it *stubIter) cur() (*openfgav1.Tuple, error) {
 }
 func (it *stubIter) Next(ctx context.Context) (*openfgav1.Tuple, error) {
 	// a real datastore iterator honours the context it is called with
-	vrt.Point("inner-next")
+	if it.r.points {
+		vrt.Point("inner-next")
+	}
 	if err := ctx.Err(); err != nil {
 		return nil, err
 	}
 	t, err := it.cur()
 	if err == nil {
 		it.pos++
+		it.r.served++
 	}
 	return t, err
 }
 func (it *stubIter) Head(ctx context.Context) (*openfgav1.Tuple, error) {
-	vrt.Point("inner-head")
+	if it.r.points {
+		vrt.Point("inner-head")
+	}
 	if err := ctx.Err(); err != nil {
 		return nil, err
 	}
@@ -108,82 +124,159 @@ func (it *stubIter) IsOrdered() bool { return false }
 
 type obs struct {
 	Op  string
-	Val string // object id of the tuple, "done", "err", "ctx"
+	Val string // object id of the tuple, "done", "err", "ctx"; for D: what ended the drain ("done", "err", or "order:<got>@<k>" when the k-th drained item was not the successor of the one before)
+	N   int    // D only: number of items the drain yielded
 }
+
+// sharedBatch is the number of items the package fetches from the underlying iterator at a time
+// (sharediterator.bufferSize, unexported). The long scenarios need more items than that; the harness measures
+// it once per run, outside the scheduler (measuredBatch), and reports itself if the constant has moved.
+const sharedBatch = 100
+
+// measuredBatch opens one shared iterator over sharedBatch+1 items, reads a single item and returns how many
+// items the package took from the underlying iterator for that.
+func measuredBatch() int {
+	var items []*openfgav1.Tuple
+	for i := 0; i <= sharedBatch; i++ {
+		items = append(items, &openfgav1.Tuple{Key: tuple.NewTupleKey(docID(i+1), "viewer", "user:a")})
+	}
+	stub := &stubReader{items: items}
+	ds := sharediterator.NewSharedIteratorDatastore(stub, sharediterator.NewSharedIteratorDatastoreStorage(), sharediterator.WithMaxAdmissionTime(time.Minute), sharediterator.WithMaxIdleTime(time.Minute))
+	it, err := ds.Read(context.Background(), "store", storage.ReadFilter{Object: "doc:", Relation: "viewer"}, storage.ReadOptions{})
+	if err != nil || it == nil {
+		return -1
+	}
+	defer it.Stop()
+	if _, err := it.Next(context.Background()); err != nil {
+		return -1
+	}
+	return stub.served
+}
+
+func docID(i int) string { return fmt.Sprintf("doc:%d", i) }
 
 func scenario(p Params) e1.Scenario {
 	return e1.Scenario{Name: p.String(), Params: p, Make: func() (func(), func(x *vrt.Execution) (string, string, string, uint64)) {
 		var items []*openfgav1.Tuple
 		for i := 0; i < p.Items; i++ {
-			items = append(items, &openfgav1.Tuple{Key: tuple.NewTupleKey(fmt.Sprintf("doc:%d", i+1), "viewer", "user:a")})
+			items = append(items, &openfgav1.Tuple{Key: tuple.NewTupleKey(docID(i+1), "viewer", "user:a")})
 		}
+		all := append(append([]string{}, p.Scripts...), p.Late...)
 		var seen [][]obs
 		var stub *stubReader
 		body := func() {
-			seen = make([][]obs, len(p.Scripts))
-			stub = &stubReader{items: items, failAt: p.FailAt}
+			seen = make([][]obs, len(all))
+			stub = &stubReader{items: items, failAt: p.FailAt, points: p.Cancel > 0}
 			st := sharediterator.NewSharedIteratorDatastoreStorage()
 			ds := sharediterator.NewSharedIteratorDatastore(stub, st, sharediterator.WithMaxAdmissionTime(10*time.Second), sharediterator.WithMaxIdleTime(time.Second))
-			var wg vsync.WaitGroup
-			for ci, script := range p.Scripts {
-				wg.Go(func() {
-					ctx := context.Background()
-					if p.Cancel == ci+1 {
-						c, cancel := context.WithCancel(ctx)
-						ctx = c
-						wg.Go(func() { vrt.Point("cancel-request-context"); cancel() })
+			var wg, plain vsync.WaitGroup
+			for _, script := range p.Scripts {
+				if !strings.Contains(script, "W") {
+					plain.Add(1)
+				}
+			}
+			var run func(ci int, script string, wg *vsync.WaitGroup)
+			consume := func(ci int, script string, wg *vsync.WaitGroup) {
+				run(ci, script, wg)
+				if ci < len(p.Scripts) && !strings.Contains(script, "W") {
+					plain.Done()
+				}
+			}
+			run = func(ci int, script string, wg *vsync.WaitGroup) {
+				ctx := context.Background()
+				if p.Cancel == ci+1 {
+					c, cancel := context.WithCancel(ctx)
+					ctx = c
+					wg.Go(func() { vrt.Point("cancel-request-context"); cancel() })
+				}
+				var it storage.TupleIterator
+				var err error
+				switch p.API {
+				case "userset":
+					it, err = ds.ReadUsersetTuples(ctx, "store", storage.ReadUsersetTuplesFilter{Object: "doc:1", Relation: "viewer"}, storage.ReadUsersetTuplesOptions{})
+				case "startingwithuser":
+					it, err = ds.ReadStartingWithUser(ctx, "store", storage.ReadStartingWithUserFilter{ObjectType: "doc", Relation: "viewer", UserFilter: []*openfgav1.ObjectRelation{{Object: "user:a"}}}, storage.ReadStartingWithUserOptions{})
+				default:
+					it, err = ds.Read(ctx, "store", storage.ReadFilter{Object: "doc:", Relation: "viewer"}, storage.ReadOptions{})
+				}
+				if err != nil || it == nil {
+					seen[ci] = append(seen[ci], obs{Op: "open", Val: "err"})
+					return
+				}
+				read := func(c rune) string {
+					var t *openfgav1.Tuple
+					var e error
+					if c == 'H' {
+						t, e = it.Head(ctx)
+					} else {
+						t, e = it.Next(ctx)
 					}
-					var it storage.TupleIterator
-					var err error
-					switch p.API {
-					case "userset":
-						it, err = ds.ReadUsersetTuples(ctx, "store", storage.ReadUsersetTuplesFilter{Object: "doc:1", Relation: "viewer"}, storage.ReadUsersetTuplesOptions{})
-					case "startingwithuser":
-						it, err = ds.ReadStartingWithUser(ctx, "store", storage.ReadStartingWithUserFilter{ObjectType: "doc", Relation: "viewer", UserFilter: []*openfgav1.ObjectRelation{{Object: "user:a"}}}, storage.ReadStartingWithUserOptions{})
-					default:
-						it, err = ds.Read(ctx, "store", storage.ReadFilter{Object: "doc:", Relation: "viewer"}, storage.ReadOptions{})
+					switch {
+					case e == nil:
+						return t.GetKey().GetObject()
+					case errors.Is(e, storage.ErrIteratorDone):
+						return "done"
 					}
-					if err != nil || it == nil {
-						seen[ci] = append(seen[ci], obs{"open", "err"})
-						return
-					}
-					stopped := false
-					for _, c := range script {
-						switch c {
-						case 'N', 'H':
-							var t *openfgav1.Tuple
-							var e error
-							if c == 'N' {
-								t, e = it.Next(ctx)
-							} else {
-								t, e = it.Head(ctx)
-							}
-							v := "err"
-							switch {
-							case e == nil:
-								v = t.GetKey().GetObject()
-							case errors.Is(e, storage.ErrIteratorDone):
-								v = "done"
-							}
-							seen[ci] = append(seen[ci], obs{string(c), v})
-						case 'S':
-							it.Stop()
-							stopped = true
-							seen[ci] = append(seen[ci], obs{"S", ""})
+					return "err"
+				}
+				prev := 0 // number of the last item this consumer consumed
+				for _, c := range script {
+					switch c {
+					case 'N', 'H':
+						v := read(c)
+						if c == 'N' && strings.HasPrefix(v, "doc:") {
+							prev, _ = strconv.Atoi(v[4:])
 						}
-					}
-					if !stopped {
+						seen[ci] = append(seen[ci], obs{Op: string(c), Val: v})
+					case 'D':
+						o := obs{Op: "D"}
+						for {
+							v := read('N')
+							if !strings.HasPrefix(v, "doc:") {
+								o.Val = v
+								break
+							}
+							if k, _ := strconv.Atoi(v[4:]); k != prev+1 || o.N > p.Items {
+								o.Val = fmt.Sprintf("order:%s@%d", v, o.N+1)
+								break
+							}
+							prev++
+							o.N++
+						}
+						seen[ci] = append(seen[ci], o)
+					case 'W':
+						plain.Wait()
+					case 'S':
 						it.Stop()
+						seen[ci] = append(seen[ci], obs{Op: "S"})
 					}
-				})
+				}
+				// the usual idiom: whatever the script did (including its own explicit Stops), the deferred Stop
+				// follows ("however the other consumers interleave or stop": a consumer that stops again must not
+				// take anything away from the others)
+				it.Stop()
+			}
+			for ci, script := range p.Scripts {
+				wg.Go(func() { consume(ci, script, &wg) })
 			}
 			wg.Wait()
+			if len(p.Late) > 0 {
+				var wg2 vsync.WaitGroup
+				for li, script := range p.Late {
+					wg2.Go(func() { consume(len(p.Scripts)+li, script, &wg2) })
+				}
+				wg2.Wait()
+			}
 		}
 		check := func(x *vrt.Execution) (string, string, string, uint64) {
 			var parts []string
 			for ci := range seen {
 				var s []string
 				for _, o := range seen[ci] {
+					if o.Op == "D" {
+						s = append(s, fmt.Sprintf("D:%dx,%s", o.N, o.Val))
+						continue
+					}
 					s = append(s, o.Op+":"+o.Val)
 				}
 				parts = append(parts, strings.Join(s, " "))
@@ -202,8 +295,18 @@ func scenario(p Params) e1.Scenario {
 			if x.Livelock {
 				return "shared-iterator-livelock", desc("livelock"), outcome, key
 			}
-			// every consumer sees a prefix-closed view of the complete sequence
-			for ci, script := range p.Scripts {
+			// every consumer sees a prefix-closed view of the complete sequence: what it reads before its first
+			// Stop is the underlying sequence from the start (a clean end only after the last item), whatever the
+			// other consumers do - including stopping more than once; after its own Stop everything is Done
+			limit, end := p.Items, "done"
+			if p.FailAt > 0 {
+				limit, end = p.FailAt-1, "err"
+			}
+			for ci, script := range all {
+				who := fmt.Sprintf("consumer %d (script %s)", ci, script)
+				if ci >= len(p.Scripts) {
+					who = fmt.Sprintf("late consumer %d (script %s, opened after the first wave returned)", ci, script)
+				}
 				pos := 0
 				stopped := false
 				for _, o := range seen[ci] {
@@ -214,6 +317,20 @@ func scenario(p Params) e1.Scenario {
 					if o.Op == "open" {
 						continue
 					}
+					if o.Op == "D" {
+						wantN, wantEnd := limit-pos, end
+						if stopped {
+							wantN, wantEnd = 0, "done"
+						}
+						if o.N != wantN || o.Val != wantEnd {
+							if o.Val == "done" && o.N < wantN {
+								return "shared-iterator-clean-end-before-last-item", desc(fmt.Sprintf("%s: reading to the end from position %d yielded %d items and then a clean ErrIteratorDone; the underlying sequence has %d more items there (then %s)", who, pos, o.N, wantN, wantEnd)), outcome, key
+							}
+							return "shared-iterator-wrong-element", desc(fmt.Sprintf("%s: reading to the end from position %d yielded %d items and then %s; the underlying sequence has %d items there and then %s", who, pos, o.N, o.Val, wantN, wantEnd)), outcome, key
+						}
+						pos += o.N
+						continue
+					}
 					want := "done"
 					switch {
 					case stopped:
@@ -221,7 +338,7 @@ func scenario(p Params) e1.Scenario {
 					case p.FailAt > 0 && pos == p.FailAt-1:
 						want = "err"
 					case pos < p.Items:
-						want = fmt.Sprintf("doc:%d", pos+1)
+						want = docID(pos + 1)
 					}
 					if p.Cancel == ci+1 && o.Val == "err" {
 						break // the cancelled consumer may fail from the cancellation on
@@ -230,7 +347,10 @@ func scenario(p Params) e1.Scenario {
 						if p.Cancel > 0 && o.Val == "err" {
 							return "shared-iterator-cancellation-of-one-consumer-fails-another", desc(fmt.Sprintf("consumer %d (own context healthy) got an error at position %d after consumer %d's context was cancelled", ci, pos, p.Cancel-1)), outcome, key
 						}
-						return "shared-iterator-wrong-element", desc(fmt.Sprintf("consumer %d (script %s) observed %s where the underlying sequence has %s at position %d", ci, script, o.Val, want, pos)), outcome, key
+						if o.Val == "done" && !stopped && p.Cancel == 0 {
+							return "shared-iterator-clean-end-before-last-item", desc(fmt.Sprintf("%s got a clean ErrIteratorDone at position %d where the underlying sequence has %s", who, pos, want)), outcome, key
+						}
+						return "shared-iterator-wrong-element", desc(fmt.Sprintf("%s observed %s where the underlying sequence has %s at position %d", who, o.Val, want, pos)), outcome, key
 					}
 					if o.Op == "N" && o.Val != "done" && o.Val != "err" {
 						pos++
@@ -263,8 +383,23 @@ func Scenarios(thorough bool) []e1.Scenario {
 		Params{Items: 3, Scripts: []string{"NNNN", "NNNN"}, API: "read", Cancel: 1},
 		Params{Items: 3, Scripts: []string{"HNNN", "NNNN"}, API: "userset", Cancel: 2},
 	)
+	// repeated Stop (every consumer also ends in the deferred Stop; here explicit ones in a row and with
+	// Next/Head after them) next to a consumer that is mid-sequence and followed by a consumer that joins late
+	long := sharedBatch + 30
+	ps = append(ps,
+		Params{Items: 3, Scripts: []string{"NSSNH", "NNNN"}, Late: []string{"HNNNN"}, API: "read"},
+		// more items than one shared batch: the stoppers only touch the first batch, the late joiner reads to the end
+		Params{Items: long, Scripts: []string{"NNSS", "NNNS"}, Late: []string{"D"}, API: "read"},
+		// a consumer that is inside the first batch parks until the others (stopping twice each, before and after
+		// reading) have returned, then reads to the end alone
+		Params{Items: long, Scripts: []string{"NSSN", "NNWD"}, API: "userset"},
+	)
 	if thorough {
 		ps = append(ps,
+			Params{Items: 2*sharedBatch + 50, Scripts: []string{"NSS", "SSH", "HNWD"}, Late: []string{"ND"}, API: "startingwithuser"},
+			Params{Items: 2*sharedBatch + 50, FailAt: sharedBatch + 50, Scripts: []string{"NNSS", "NS"}, Late: []string{"D", "HD"}, API: "read"},
+			Params{Items: sharedBatch + 1, Scripts: []string{"NSSS", "NWD"}, Late: []string{"D"}, API: "read"},
+			Params{Items: 3, Scripts: []string{"SSN", "NSNS", "NNNN"}, Late: []string{"NNNN"}, API: "userset"},
 			Params{Items: 3, Scripts: []string{"NNNN", "NNNN", "NNNN"}, API: "read"},
 			Params{Items: 3, Scripts: []string{"NS", "HNN", "NNNN"}, API: "read"},
 			Params{Items: 3, FailAt: 3, Scripts: []string{"NNNN", "NNS", "HNNN"}, API: "read"},
@@ -290,8 +425,67 @@ func RunInto(o *core.Options, r *core.Report) {
 		b.PerScen = 8 * time.Minute
 		b.Required = 3
 	}
+	// the scenarios that read past the first batch carry ~1 scheduling point per item (the shared state pointer)
+	// with up to five modelled timer threads enabled at each of them: for these only the non-preemptive
+	// schedules (bound 0: every order of the threads' blocking segments, timers included) and one deviation are
+	// required; deeper bounds are best effort. A worker explores one scenario, so the budget is picked there.
+	if sh := os.Getenv("VERIF_SHARD"); sh != "" {
+		if i, err := strconv.Atoi(sh); err == nil && i < len(scs) && scs[i].Params.(Params).Items > sharedBatch {
+			b.Required, b.DevRequired = 1, 1
+		}
+	}
+	r.Assume(fmt.Sprintf("shared iterator scripts: every consumer ends in a (deferred) Stop after whatever explicit Stops its script holds, so each script with an S stops more than once; scripts with several S in a row and Next/Head after them run next to a consumer that is still mid-sequence and before consumers that open the same query after the first wave has returned (admitted or not: the timers fire at any point); the long scenarios have %d (thorough: up to %d) items against the package's %d-item fetch (measured once per run: shared_batch_measured), the stoppers stay inside the first batch, the reader to the end (D) runs while the other consumers are parked or gone (timers stay free), and its items are checked one by one for succession; oracle: no clean end-of-sequence before the last item for any consumer that has not stopped itself; required depth of the long scenarios: all non-preemptive schedules + 1 deviation (the others: preemption bound 1, 2 deviations)", sharedBatch+30, 2*sharedBatch+50, sharedBatch))
+	if os.Getenv("VERIF_SHARD") == "" {
+		got := measuredBatch()
+		r.Set("shared_batch_measured", got)
+		if got != sharedBatch {
+			r.Violate("harness-shared-batch-size-assumption", fmt.Sprintf("one Next on a shared iterator over %d items took %d items from the underlying iterator; the long scenarios are sized for a batch of %d", sharedBatch+1, got, sharedBatch), map[string]any{"measured": got})
+		}
+	}
 	results := e1.RunSharded(o, r, scs, b)
 	e1.Merge(r, results)
+	var multiStopScen, lateScen, longScen int64
+	var multiStopExecs, lateExecs, lateJoinedAdmitted, longExecs, longCompleteReads int64
+	for i, res := range results {
+		if res == nil {
+			continue
+		}
+		p := scs[i].Params.(Params)
+		multi := false
+		for _, sc := range append(append([]string{}, p.Scripts...), p.Late...) {
+			multi = multi || strings.Contains(sc, "S") // explicit Stop(s) + the deferred one
+		}
+		if multi {
+			multiStopScen++
+			multiStopExecs += res.Execs
+		}
+		if len(p.Late) > 0 {
+			lateScen++
+			lateExecs += res.Execs
+			for oc, n := range res.Outcomes {
+				if strings.Contains(oc, " opened=1 ") {
+					lateJoinedAdmitted += int64(n) // the late consumer cloned the entry the first wave had created
+				}
+			}
+		}
+		if p.Items > sharedBatch {
+			longScen++
+			longExecs += res.Execs
+			for oc, n := range res.Outcomes {
+				if strings.Contains(oc, fmt.Sprintf("x,%s", map[bool]string{true: "err", false: "done"}[p.FailAt > 0])) {
+					longCompleteReads += int64(n)
+				}
+			}
+		}
+	}
+	r.Count("shared_scenarios_with_repeated_stop", multiStopScen)
+	r.Count("shared_executions_with_repeated_stop", multiStopExecs)
+	r.Count("shared_scenarios_with_late_consumer", lateScen)
+	r.Count("shared_executions_with_late_consumer", lateExecs)
+	r.Count("shared_executions_late_consumer_joined_admitted_entry", lateJoinedAdmitted)
+	r.Count("shared_scenarios_longer_than_one_batch", longScen)
+	r.Count("shared_executions_longer_than_one_batch", longExecs)
+	r.Count("shared_executions_with_a_judged_read_to_the_end_past_the_first_batch", longCompleteReads)
 	for i, res := range results {
 		if res != nil && i < 2 {
 			r.Sample(map[string]any{"shared_iterator_scenario": res.Name, "outcomes": len(res.Outcomes)})
@@ -308,8 +502,16 @@ func Replay(o *core.Options, r *core.Report, v e1.Viol) {
 		return
 	}
 	body, check := scenario(p).Make()
+	// a schedule found with local-object elision on only replays under the same set of shared objects
+	vrt.LocalElision = v.Elide
+	vrt.SetShared(v.Shared)
 	x := vrt.Run(v.Schedule, vrt.RunOpts{Verbose: true}, body)
 	sig, desc, outcome, _ := check(x)
+	if os.Getenv("VERIF_TRACE") != "" {
+		for _, l := range x.Trace {
+			fmt.Println(l)
+		}
+	}
 	r.Eval(1)
 	fmt.Println("outcome:", outcome)
 	if sig != "" {
